@@ -80,6 +80,18 @@ claim('C10', 'other',
       'findings (F08a-c). Numerics of that branch are not decided.',
       TRUST, 'DESIGN.md section 3 C10')
 
+claim('C04', 'other',
+      'abstract interpretation over a polynomial/trigonometric normal form with value-directed let-abstraction; exhaustive exploration '
+      'of the sign-label paths of Arc._parameterize (4 flag combinations x ~96 paths) against the F.6.5 formulas transcribed in the checker',
+      'Decides: derivative(t,n) == d^n/dt^n point(t) for n=1..8; point(t) on the stored ellipse; initialisation order and normalisation in '
+      '__init__; on every path of _parameterize, for all four flag combinations: x1\', radius_check, scaling by sqrt(radius_check) iff '
+      '> 1 (ValueError iff autoscale is off), radicand, a radical that is guarded against radicand ~ 0, the centre with its sign rule, '
+      'theta and raw delta case tables and the +-360 adjustment (spec table under the stated feasibility lemma); cubic/quadratic '
+      'approximations chained, end-point exact, joints on the arc, control points on the tangents. Not decided: point(0)=start and '
+      'point(1)=end as numeric statements (acos/sqrt/clip), monotonicity and minimality up to rounding.',
+      TRUST + ' Relations used: cos^2+sin^2=1, sqrt(u)^2=u; clip() is treated as an uninterpreted function in the same places on both sides. '
+      'Feasibility lemma (F.6.5 geometry): raw delta > 0 iff sweep != large_arc.', 'DESIGN.md section 3 C04')
+
 ALL = ['C%02d' % i for i in range(1, 21)]
 for pid in ALL:
     if pid not in CLAIMED and pid not in NOT_APPLICABLE:
